@@ -256,3 +256,38 @@ def r18_5(prog, out):
                 out.holds(key, prog.loc(pid), "id = the input after the literal segment, to the end")
             else:
                 out.undecided(key, prog.loc(pid), "derivation of the id not recognised (%s)" % sorted(c.split("::")[-1] for c in si.calls)[:6])
+
+
+@rule("C18", "R18.6", "the leading literal is matched against the input as given (not against a trimmed / rewritten copy)", floor=2)
+def r18_6(prog, out):
+    from slicing import Slicer
+    sl = Slicer(prog)
+    for label, ty in name_types(prog):
+        disp = find_display(prog, ty)
+        lits = sorted(v for v in str_consts(prog, disp) if len(v) >= 2 and "/" in v and not v.startswith("/"))
+        for pid in find_parser(prog, ty):
+            bi = prog.info(pid)
+            key = "%s:prefix-on-raw-input" % label
+            found = False
+            for bid in prog.cone(pid, follow=("call", "closure")):
+                ci = prog.info(bid)
+                for bb, t in ci.calls(lambda c: c.path in CONTENT_MATCH and c.path.split("::")[-1] in ("starts_with", "strip_prefix")):
+                    lit = None
+                    for a in t.args[1:]:
+                        v = a.const_str() or lit_of(ci, a)
+                        o = ci.trace(a)
+                        if v is None and o.kind == "const" and isinstance(o.data, str) and o.data in prog.facts.consts:
+                            v = prog.facts.consts[o.data].get("str")
+                        lit = lit or v
+                    if lit not in lits:
+                        continue
+                    found = True
+                    s = sl.of(bid, t.args[0])
+                    tr = sorted({c.split("::")[-1] for c in s.calls} & set(TRANSFORMS))
+                    if tr:
+                        out.violation(key, ci.loc(bb), "%r is matched against the input after %s(): spellings with extra characters around the name (e.g. a leading '/') are "
+                                      "accepted as aliases of the canonical name" % (lit, tr[0]))
+                    else:
+                        out.holds(key, ci.loc(bb), "%r is matched at the start of the untransformed input" % lit)
+            if not found:
+                out.undecided(key, prog.loc(pid), "no starts_with / strip_prefix on the leading literal")
